@@ -139,10 +139,10 @@ def main(rep, ws, tier):
     try:
         bc = ws.compile_file('c02_half_notable', build.REPO + '/src/Imath/half.cpp', extra=['-DIMATH_HALF_NO_LOOKUP_TABLE'])
         mod = ws.irx(bc, prefixes=('@none@',), noopt=True, all_globals=True)
-        has = any('imath_half_to_float_table' in g['name'] for g in mod['globals'])
+        has = any('imath_half_to_float_table' in g['name'] and 'init' in g for g in mod['globals'])
         bc2 = ws.compile_file('c02_half_table', build.REPO + '/src/Imath/half.cpp')
         mod2 = ws.irx(bc2, prefixes=('@none@',), noopt=True, all_globals=True)
-        has2 = any(g['name'] == 'imath_half_to_float_table' for g in mod2['globals'])
+        has2 = any(g['name'] == 'imath_half_to_float_table' and 'init' in g for g in mod2['globals'])
         ok = (not has) and has2
         rep.ob('half.cpp table definition', 'R02.pp', HOLDS if ok else VIOLATED, 'table defined iff !IMATH_HALF_NO_LOOKUP_TABLE' if ok else 'table defined with NO_LOOKUP_TABLE: %s; without: %s' % (has, has2), 'src/Imath/half.cpp')
     except build.BuildError as e:
